@@ -168,6 +168,8 @@ package csi
 //@   modifies all(i), arrays(refIndex), arrays(bin), arrays(bgzf.Chunk), objects(index.ReferenceStats), objects(uint64)
 //@   ghost wa int
 //@   ghost wb int
+//@   ghost gbin uint32
+//@   at stmt "b := reg2bin(int64(r.Start()), int64(r.End()), i.minShift, i.depth)" ghost gbin = ret
 //@   at stmt "ref.bins[i].chunks[j].End = c.End" ghost wa = i; wb = j
 //@   at stmt "ref.bins[i].chunks = append(ref.bins[i].chunks, c)" ghost wa = i; wb = len(ref.bins[i].chunks) - 1
 //@   at stmt "ref.bins = append(ref.bins, bin{" ghost wa = len(ref.bins) - 1; wb = 0
@@ -175,10 +177,11 @@ package csi
 //@   loop 1 invariant @scan 0 <= rangeindex + 1 && rangeindex + 1 <= 4611686018427387904
 //@   ensures[C04] @neverfails result == nil
 //@   ensures[C04] @refs placed ==> (len(i.refs) == recRefID(r) + 1 && i.lastRecord == recStart(r))
-//@   ensures[C04] @bin placed ==> (0 <= wa && wa < len(i.refs[recRefID(r)].bins) &&
-//@       cIsBin(i.refs[recRefID(r)].bins[wa].bin, i.depth) &&
-//@       cContains(i.refs[recRefID(r)].bins[wa].bin, int64(recStart(r)), int64(recEnd(r)), i.minShift, i.depth) &&
+//@   ensures[C04] @binsem placed ==> (cIsBin(gbin, old(i.depth)) &&
+//@       cContains(gbin, int64(recStart(r)), int64(recEnd(r)), old(i.minShift), old(i.depth)))
+//@   ensures[C04] @bin placed ==> (0 <= wa && wa < len(i.refs[recRefID(r)].bins) && i.refs[recRefID(r)].bins[wa].bin == gbin &&
 //@       0 <= wb && wb < len(i.refs[recRefID(r)].bins[wa].chunks) && i.refs[recRefID(r)].bins[wa].chunks[wb].End == c.End)
+//@   ensures[C04] @geometry i.minShift == old(i.minShift) && i.depth == old(i.depth)
 //@   ensures[C15] @mapped placed ==> (i.refs[recRefID(r)].stats != nil && i.refs[recRefID(r)].stats.Mapped ==
 //@       ite(recRefID(r) == old(len(i.refs)) - 1 && old(i.refs[recRefID(r)].stats) != nil, old(i.refs[recRefID(r)].stats.Mapped), 0) + ite(mapped, 1, 0))
 //@   ensures[C15] @unmapped placed ==> (i.refs[recRefID(r)].stats != nil && i.refs[recRefID(r)].stats.Unmapped ==
